@@ -101,6 +101,8 @@ var Values = []string{
 	"\uff11\uff12", "\u0661\u0662\u0663", "4\u0665",
 	// characters that mean something in an expression, next to letters a class like [a-z()] admits
 	"a:b", "a?b", "(a)", "a|b", "a)b(",
+	// the spelling of a bind of the name pool, as it stands in a route text
+	"{a}", "{b}", "%7Bid%7D", "{x}", "{c}-{a}",
 }
 
 // RouteOpts tunes the derivation generator.
